@@ -278,7 +278,8 @@ func (d *dumper) lookup(pkg *types.Package, name string) (string, error) {
 		}
 		ms = append(ms, fmt.Sprintf("(mkMethod %s (mkSig %s %s %s))", coqStr(m.Name()), ps, coqBool(v), rs))
 	}
-	return fmt.Sprintf("(LIface %s %s)", coqList(tps), coqList(ms)), nil
+	_, isTypeName := obj.(*types.TypeName)
+	return fmt.Sprintf("(LIface %s %s %s %s)", coqBool(iface.IsMethodSet()), coqBool(isTypeName), coqList(tps), coqList(ms)), nil
 }
 
 // loadSrc loads a package exactly as registry.New does.
